@@ -249,6 +249,17 @@ class DataConnection(Connection, abc.ABC):
             raise
 
         else:
+            if self.state != ConnectionState.CONNECTING:
+                # The connection got disconnected while the connect was in
+                # progress: it has already been reported as closed, close what
+                # was just opened instead of reporting it as connected again
+                if self._writer is not None:
+                    self._writer.close()
+                self._reader = None
+                self._writer = None
+                raise ConnectionFailedError(
+                    f"{self.hostname}:{self.port} : disconnected while connecting")
+
             adapter.debug("connected", extra=self.__dict__)
             await self.set_state(ConnectionState.CONNECTED)
 
